@@ -68,6 +68,7 @@ type Cmp struct {
 	doneDict map[*psmodel.Dict]bool
 	Diff     string
 	path     []pathElem
+	lenient  *psmodel.Dict // the reference's systemdict (extra operators tolerated)
 }
 
 type pathElem struct {
@@ -168,6 +169,23 @@ func (c *Cmp) Dict(path string, d postscript.Dict, md *psmodel.Dict) bool {
 		return true
 	}
 	c.doneDict[md] = true
+	if md == c.lenient && len(d) > len(md.M) {
+		// systemdict may offer operators beyond the ones the property lists (a
+		// library that adds, say, `div` does not violate it): extra entries are
+		// tolerated when they are operators; everything the reference has must
+		// still be there with the right value
+		extraOps := 0
+		for k, v := range d {
+			if _, ok := md.M[string(k)]; !ok {
+				if rv := reflect.ValueOf(v); rv.IsValid() && rv.Kind() == reflect.Func {
+					extraOps++
+				}
+			}
+		}
+		if len(d)-extraOps == len(md.M) {
+			goto contents
+		}
+	}
 	if len(d) != len(md.M) {
 		var extra, missing []string
 		for k := range d {
@@ -184,6 +202,7 @@ func (c *Cmp) Dict(path string, d postscript.Dict, md *psmodel.Dict) bool {
 		sort.Strings(missing)
 		return c.fail(path, "dictionary has %d entries, expected %d (unexpected keys %v, missing keys %v)", len(d), len(md.M), extra, missing)
 	}
+contents:
 	for _, k := range md.SortedKeys() {
 		v, ok := d[postscript.Name(k)]
 		if !ok {
@@ -311,6 +330,7 @@ func (c *Cmp) Value(path string, o postscript.Object, v psmodel.Val) bool {
 // equal and a description of the first difference otherwise.
 func State(ops OpTable, intp *postscript.Interpreter, m *psmodel.M) string {
 	c := New(ops)
+	c.lenient = m.System
 	if len(intp.Stack) != len(m.Stack) {
 		return fmt.Sprintf("operand stack depth %d, expected %d: got [%s] expected [%s]", len(intp.Stack), len(m.Stack), ShowStack(intp.Stack), showModelStack(m.Stack))
 	}
